@@ -360,12 +360,27 @@ func baselineCmd(args []string) int {
 	}
 	sort.Strings(names)
 	admit := 3.0 // seconds: only obligations decided well inside the quick timeout (20 s) are claimed
+	never := neverClaim()
 	for _, n := range names {
 		g := gs[n]
 		if g.Cover {
 			continue
 		}
-		if len(g.Bad) == 0 && g.MaxSec <= admit && !g.Bounded {
+		lim := admit
+		if strings.HasPrefix(n, "lemma:") {
+			lim = 1.0 // nonlinear lemmas: the proof time is the least stable quantity in the whole pipeline
+		}
+		denied := false
+		for _, re := range never {
+			if re.MatchString(n) {
+				denied = true
+			}
+		}
+		if denied {
+			fmt.Printf("not claimed: %s (listed in baseline/never_claim.txt)\n", n)
+			continue
+		}
+		if len(g.Bad) == 0 && g.MaxSec <= lim && !g.Bounded {
 			b.Groups[n] = &BaselineGroup{Status: "discharged", Count: g.Total, MaxSec: round2(g.MaxSec)}
 		} else {
 			why := "slow"
@@ -388,6 +403,26 @@ func baselineCmd(args []string) int {
 	os.WriteFile(filepath.Join(verifDir(), "baseline", *prop+".json"), append(data, '\n'), 0o644)
 	fmt.Printf("baseline %s: %d groups claimed of %d\n", *prop, len(b.Groups), len(names))
 	return 0
+}
+
+// neverClaim reads baseline/never_claim.txt: regular expressions of obligation groups that are evaluated and reported
+// every run but never claimed (proofs that have shown unstable solver times on the unchanged tree).
+func neverClaim() []*regexp.Regexp {
+	b, err := os.ReadFile(filepath.Join(verifDir(), "baseline", "never_claim.txt"))
+	if err != nil {
+		return nil
+	}
+	var out []*regexp.Regexp
+	for _, l := range strings.Split(string(b), "\n") {
+		l = strings.TrimSpace(l)
+		if l == "" || strings.HasPrefix(l, "#") {
+			continue
+		}
+		if re, err := regexp.Compile(l); err == nil {
+			out = append(out, re)
+		}
+	}
+	return out
 }
 
 func round2(f float64) float64 { return float64(int(f*100+0.5)) / 100 }
